@@ -23,6 +23,7 @@ type deferRec struct {
 }
 
 type Frame struct {
+	curBlock *ssa.BasicBlock // block being executed (for resolving locals in at-call / after-call clauses)
 	callBind []Val // bindings of the closure being called under contract
 	u      *Unit
 	fn     *ssa.Function
@@ -302,6 +303,7 @@ func (fr *Frame) runRegion(order []*ssa.BasicBlock, set map[*ssa.BasicBlock]bool
 			continue
 		}
 		// execute
+		fr.curBlock = blk
 		for _, in := range blk.Instrs {
 			if _, ok := in.(*ssa.Phi); ok {
 				continue
@@ -1569,4 +1571,20 @@ func (fr *Frame) splitClause(c *Clause) []partClause {
 		out = append(out, partClause{&nc, fmt.Sprintf(".c%d", j+1)})
 	}
 	return out
+}
+
+// innermostLoopHeader: the header of the innermost loop whose body contains b (nil if none).
+func (fr *Frame) innermostLoopHeader(b *ssa.BasicBlock) *ssa.BasicBlock {
+	if b == nil {
+		return nil
+	}
+	var best *ssa.BasicBlock
+	bestSize := 0
+	for _, h := range fr.loops {
+		body := loopBody(h)
+		if body[b] && (best == nil || len(body) < bestSize) {
+			best, bestSize = h, len(body)
+		}
+	}
+	return best
 }
